@@ -22,7 +22,13 @@ def source(rng):
             parent = ' : Base'
         shapes.append((fields, '  if i == %d {\n    class A%s {\n%s%s    foo() { "foo%d" }\n    get() { self.%s }\n  }\n    return A();\n  }\n' % (
             k, parent, init if not parent else init.replace('init() {', 'init() { super.init();'), extra, k, fields[0])))
-    lines = ['class Base { init() { self.z = "z"; } basefoo() { "base" } }']
+    lines = []
+    if r.random() < 0.5:
+        # call sites that are compiled first (lowest cache slots) and never run, or run only at the very end:
+        # their cache entries stay empty while later entries are live (a hole in front of the live entries)
+        lines.append('fn never(o) { o.a = o.a; return o.get() + o.foo() + o.a; }')
+        lines.append('fn late(o) { return o.a; }')
+    lines.append('class Base { init() { self.z = "z"; } basefoo() { "base" } }')
     lines.append('fn call(o) { o.foo() }')
     lines.append('fn read(o) { o.get() }')
     lines.append('fn rdA(o) { o.a }')
@@ -50,5 +56,7 @@ def source(rng):
     lines.append('  let r4 = viaSite ? o.a : wrA(o, "w${i}");')
     lines.append('  print(i, k, r1, r2, r3, r4);')
     lines.append('}')
+    if lines[0].startswith('fn never'):
+        lines.append('print("late", late(mk(0)));')
     lines.append('print("done");')
     return '\n'.join(lines) + '\n'
